@@ -145,6 +145,16 @@ Section Hist.
      0).
 End Hist.
 
+(* ---- a concrete family used by the examples of Properties/C13.v *)
+Definition ex_scanner : cscanner :=
+  mk_scanner [("i0"%string, 0%nat); ("s0"%string, 1%nat); ("b0"%string, 2%nat)] [EInt 5; EBytes [97; 98]; EBool false]
+             [0; 512; 1000; 0; 0; 1073741824; 0; 1; 0; 0].
+
+Definition ex_history : list cop :=
+  [OClone 0%nat; OLocal 1%nat (LDefine "i0" (EInt (-7))); OClone 1%nat; OLocal 0%nat (LSetData 1 3);
+   OLocal 2%nat (LSetParams [1; 3; 1; 1; 0; 1073741824; 0; 1; 0; 0]); OLocal 1%nat (LDefine "i0" (EBool true));
+   OScan 1%nat 2; OLocal 0%nat (LDefine "zz" (EInt 1))].
+
 (* ------------------------------------------------------------------ hash cases *)
 Definition results_eqb (a b : list mres) : bool := list_eqb mres_eqb_simple a b.
 
